@@ -327,3 +327,31 @@ func HarnessC02(fam, nT, nV, convCode, form, sv, mode int) {
 
 func (w *hWorld) classifyRefusal() string    { return "" }
 func (w *hWorld) classifyDivergence() string { return "" }
+
+// HarnessC02Static — real Go signatures the generator cannot express.
+func HarnessC02Static(kind int) {
+	hSchedVector(0)
+	ran := false
+	x := vnPayload("x")
+	var r Result
+	switch kind {
+	case 0: // the embedded exported field HBase is a named parameter "hbase" and is underivable
+		f, err := NewFunc(func(in hWithEmbedded) { ran = true })
+		if err != nil {
+			vnAssume(false)
+		}
+		r = f.Call(Named("a", hP0{x}))
+	case 1: // the same inside a converter that the target needs
+		f, err := NewFunc(func(v hP1) { ran = true })
+		if err != nil {
+			vnAssume(false)
+		}
+		convRan := false
+		r = f.Call(Named("a", hP0{x}), Converter(func(in hWithEmbedded) hP1 { convRan = true; return hP1{in.A.ID} }))
+		vnAssert(!convRan, "C02.static.converter-not-run-with-a-missing-embedded-argument")
+	}
+	vnNote(fmt.Sprintf("static C02 scenario %d", kind))
+	vnAssert(r.Err() != nil, "C02.static.error-returned")
+	vnAssert(!ran, "C02.static.target-not-run")
+	vnCover("C02.underivable-world")
+}
